@@ -130,7 +130,7 @@ def step (d : DState) (ws : List String) : DState × String :=
   | ["sizes"] => (d, sizesStr)
   | ["dump"] => (d, "ok " ++ dumpStr d.m)
   | ["addnet"] =>
-    let (m, r) := Zvbi.Cache.step d.m .addNet
+    let (m, r) := Zvbi.Cache.stepCur d.m .addNet
     match r with
     | .net nid => finish { d with nh := d.nh.push (nid, true) } m s!"ok n{d.nh.size}"
     | _ => (d, "rej model")
@@ -140,7 +140,7 @@ def step (d : DState) (ws : List String) : DState × String :=
     | some n => match getH d.nh n with
       | none => nrej d "handle"
       | some nid =>
-        let (m, _) := Zvbi.Cache.step d.m (.netRef nid)
+        let (m, _) := Zvbi.Cache.stepCur d.m (.netRef nid)
         finish { d with nh := d.nh.push (nid, true) } m s!"ok n{d.nh.size}"
   | ["netunref", n] =>
     match lim (parseNat n) 1000000 with
@@ -148,7 +148,7 @@ def step (d : DState) (ws : List String) : DState × String :=
     | some n => match getH d.nh n with
       | none => (d, "rej handle")
       | some nid =>
-        let (m, _) := Zvbi.Cache.step d.m (.netUnref nid)
+        let (m, _) := Zvbi.Cache.stepCur d.m (.netUnref nid)
         finish { d with nh := release d.nh n } m "ok"
   | ["chsw", n] =>
     match lim (parseNat n) 1000000 with
@@ -156,7 +156,7 @@ def step (d : DState) (ws : List String) : DState × String :=
     | some n => match getH d.nh n with
       | none => nrej d "handle"
       | some nid =>
-        let (m, r) := Zvbi.Cache.step d.m (.chsw nid)
+        let (m, r) := Zvbi.Cache.stepCur d.m (.chsw nid)
         match r with
         | .net nid' =>
           let nh := release d.nh n
@@ -168,7 +168,7 @@ def step (d : DState) (ws : List String) : DState × String :=
     | some n => match getH d.nh n with
       | none => (d, "rej handle")
       | some nid =>
-        let (m, r) := Zvbi.Cache.step d.m (.statReset nid)
+        let (m, r) := Zvbi.Cache.stepCur d.m (.statReset nid)
         match r with
         | .rej w => (d, s!"rej {w}")
         | _ => finish d m "ok"
@@ -178,7 +178,7 @@ def step (d : DState) (ws : List String) : DState × String :=
       | none => (d, "rej handle")
       | some nid =>
         if pgno < 0x100 ∨ pgno > 0x8FF ∨ pgno % 256 = 255 then (d, "rej pgno")
-        else let (m, _) := Zvbi.Cache.step d.m (.ptype nid pgno t); finish d m "ok"
+        else let (m, _) := Zvbi.Cache.stepCur d.m (.ptype nid pgno t); finish d m "ok"
     | _, _, _ => (d, "rej parse")
   | ["put", n, pgno, subno, func, x26, x28, tag] =>
     match lim (parseNat n) 1000000, lim (parseNat pgno) 0xFFFF, lim (parseNat subno) 0xFFFF, parseInt func,
@@ -190,7 +190,7 @@ def step (d : DState) (ws : List String) : DState × String :=
       | some nid =>
         if pgno < 0x100 ∨ pgno > 0x8FF then prej d "pgno"
         else
-          let (m, r) := Zvbi.Cache.step d.m (.put nid ⟨pgno, subno, func, x26, x28, tag⟩)
+          let (m, r) := Zvbi.Cache.stepCur d.m (.put nid ⟨pgno, subno, func, x26, x28, tag⟩)
           match r with
           | .page p => pageOut d m p
           | .err e => finish { d with ph := d.ph.push (0, false) } m (showErr e)
@@ -201,7 +201,7 @@ def step (d : DState) (ws : List String) : DState × String :=
     | some n, some pgno, some subno, some mask => match getH d.nh n with
       | none => prej d "handle"
       | some nid =>
-        let (m, r) := Zvbi.Cache.step d.m (.get nid pgno subno mask)
+        let (m, r) := Zvbi.Cache.stepCur d.m (.get nid pgno subno mask)
         match r with
         | .page p => pageOut d m p
         | _ => (d, "rej model")
@@ -212,7 +212,7 @@ def step (d : DState) (ws : List String) : DState × String :=
     | some p => match getH d.ph p with
       | none => prej d "handle"
       | some pid =>
-        let (m, r) := Zvbi.Cache.step d.m (.ref pid)
+        let (m, r) := Zvbi.Cache.stepCur d.m (.ref pid)
         match r with
         | .ok => finish { d with ph := d.ph.push (pid, true) } m s!"ok p{d.ph.size}"
         | _ => (d, "rej model")
@@ -225,7 +225,7 @@ def step (d : DState) (ws : List String) : DState × String :=
         let intact := match d.m.findPage pid with
           | some q => s!"{q.pgno} {q.subno} {q.tag}"
           | none => "gone"
-        let (m, r) := Zvbi.Cache.step d.m (.unref pid)
+        let (m, r) := Zvbi.Cache.stepCur d.m (.unref pid)
         match r with
         | .ok => finish { d with ph := release d.ph p } m s!"ok {intact}"
         | _ => (d, "rej model")
@@ -234,7 +234,7 @@ def step (d : DState) (ws : List String) : DState × String :=
     | some n, some pgno, some subno => match getH d.nh n with
       | none => (d, "rej handle")
       | some nid =>
-        let (m, r) := Zvbi.Cache.step d.m (.isCached nid pgno subno)
+        let (m, r) := Zvbi.Cache.stepCur d.m (.isCached nid pgno subno)
         match r with
         | .num v => finish d m s!"ok {v}"
         | _ => (d, "rej model")
@@ -244,7 +244,7 @@ def step (d : DState) (ws : List String) : DState × String :=
     | some n, some pgno => match getH d.nh n with
       | none => (d, "rej handle")
       | some nid =>
-        let (m, r) := Zvbi.Cache.step d.m (.hiSubno nid pgno)
+        let (m, r) := Zvbi.Cache.stepCur d.m (.hiSubno nid pgno)
         match r with
         | .num v => finish d m s!"ok {v}"
         | .rej w => (d, s!"rej {w}")
@@ -257,7 +257,7 @@ def step (d : DState) (ws : List String) : DState × String :=
       match getH d.nh n with
       | none => (d, "rej handle")
       | some nid =>
-        let (m, r) := Zvbi.Cache.step d.m (.foreach nid pgno subno (dir == "rev") stop)
+        let (m, r) := Zvbi.Cache.stepCur d.m (.foreach nid pgno subno (dir == "rev") stop)
         match r with
         | .walk vs (some r) =>
           let v := ",".intercalate (vs.map fun v => s!"{v.pgno}.{v.subno}.{v.tag}.{if v.wrapped then 1 else 0}")
@@ -266,14 +266,14 @@ def step (d : DState) (ws : List String) : DState × String :=
         | .rej w => (d, s!"rej {w}")
         | _ => (d, "rej model")
     | _, _, _, _ => (d, "rej parse")
-  | ["purge"] => let (m, _) := Zvbi.Cache.step d.m .purge; finish d m "ok"
+  | ["purge"] => let (m, _) := Zvbi.Cache.stepCur d.m .purge; finish d m "ok"
   | ["setlimit", n] =>
     match lim (parseNat n) 2147483647 with
     | none => (d, "rej parse")
-    | some n => let (m, _) := Zvbi.Cache.step d.m (.setLimit n); finish d m "ok"
+    | some n => let (m, _) := Zvbi.Cache.stepCur d.m (.setLimit n); finish d m "ok"
   | ["delete"] =>
     -- vbi_cache_delete: purge, then the cache itself is freed; what stays allocated is leaked
-    let (m, _) := Zvbi.Cache.step d.m .purge
+    let (m, _) := Zvbi.Cache.stepCur d.m .purge
     ({ d with m := m, deleted := true }, s!"ok leaked pages={m.pages.length} nets={m.nets.length}")
   | w :: _ =>
     if ["sizes", "dump", "addnet", "netref", "netunref", "chsw", "statreset", "ptype", "put", "get", "ref", "unref",
